@@ -362,4 +362,29 @@ PROPS = {
         "assumptions": ["strict-parser changes only the parser; the strict probe configuration is default + "
                         "strict-parser (+ serde)"],
     },
+    "C16": {
+        "modules": [T + "C16"],
+        "theorems": [(T + "C16.ser_spec", T + "C16"),
+                     (T + "C16.de_ser", T + "C16"),
+                     (T + "C16.de_ok_iff_parser_ok", T + "C16"),
+                     (T + "C16.de_total", T + "C16"),
+                     (T + "C16.de_total_partial", T + "C16"),
+                     (T + "C16.unwrap_counterexample", T + "C16"),
+                     (T + "C16.source_does_not_unwrap", T + "C16"),
+                     (T + "C04.tables", T + "C04")],
+        "modules_extra": [T + "C04"],
+        "extract_keys": ["serde visitors"],
+        "spec_is_property": True,
+        "streams": {
+            "quick": [("serde", "serde", 300), ("strict", "serde", 300), ("serde-buf", "serde", 300)],
+            "thorough": [("serde", "serde", 6000), ("strict", "serde", 6000), ("serde-buf", "serde", 6000),
+                         ("unsafe-strict", "serde", 3000)],
+        },
+        "rule": "per case: serialize through a recording serializer (human-readable and not) and through "
+                "serde_json / ciborium / postcard with round trip; one Visitor event of each kind through a "
+                "scripted Deserializer x human_readable flag; every tenth case a batch of malformed JSON / CBOR / "
+                "postcard documents",
+        "assumptions": ["serde's default Visitor methods by contract (borrowed/owned variants forward; others are "
+                        "invalid_type errors); the format crates are exercised, not modelled"],
+    },
 }
